@@ -113,7 +113,12 @@ func init() {
 		return Ops{
 			Less: func(i, j int) bool { return slice[i] < slice[j] },
 			HashWithSeed: func(i int, seed uint32) uint32 {
-				return hash32(math.Float32bits(slice[i]), seed)
+				f := slice[i]
+				if f == 0 {
+					// -0 and +0 are equal keys; hash them alike.
+					f = 0
+				}
+				return hash32(math.Float32bits(f), seed)
 			},
 		}
 	})
@@ -122,7 +127,12 @@ func init() {
 		return Ops{
 			Less: func(i, j int) bool { return slice[i] < slice[j] },
 			HashWithSeed: func(i int, seed uint32) uint32 {
-				return hash64(math.Float64bits(slice[i]), seed)
+				f := slice[i]
+				if f == 0 {
+					// -0 and +0 are equal keys; hash them alike.
+					f = 0
+				}
+				return hash64(math.Float64bits(f), seed)
 			},
 		}
 	})
